@@ -371,7 +371,7 @@ SYNC_MODELS = {
 }
 
 ASYNC_OPS = {'buffer', 'delay', 'rate_limit', 'map_async', 'timed_window',
-             'timed_window_unique', 'latest'}
+             'timed_window_unique', 'latest', 'scatter', 'gather'}
 
 
 def is_async_node(spec):
